@@ -65,6 +65,11 @@ def _minimise_child(prop, tier, case, vjson, opts):
             small = case
             res = eng.execute(ctx, small, EventLog(0))
             again = [x for x in res[0] if x.key() == v.key()]
+        if again and hasattr(eng, "confirm"):
+            # engines with by-passable seams re-judge the case against the real thing
+            disagreement = eng.confirm(ctx, small, again[0])
+            if disagreement:
+                raise HarnessError(disagreement)
         return small, (again[0].to_json() if again else None)
     finally:
         eng.worker_fini(ctx)
@@ -177,7 +182,16 @@ def cmd_check(args):
     # under a different hash seed; event-log digests must be identical
     sc_idx = [i for i in range(SELFCHECK_SEEDS) if i in merged["digests"]]
     selfcheck = {"seeds_rerun": 0, "equal": True, "hashseed_second_run": 1}
-    if sc_idx and not args.no_selfcheck:
+    fallback = sum(merged["stats"].count(k) for k in (
+        "probe.seam_bypass_noticed", "probe.judged_with_real_process",
+        "probe.judged_on_real_scratch_directory"))
+    if fallback:
+        # the code under test reaches its environment past a simulated seam and this
+        # batch was (partly) judged on real processes / a real scratch directory: event
+        # logs then depend on which worker noticed first and are not compared
+        selfcheck = {"seeds_rerun": 0, "equal": True, "hashseed_second_run": 1,
+                     "skipped": "fallback to real processes / real scratch directory active"}
+    elif sc_idx and not args.no_selfcheck:
         again = fresh_digests(prop, tier, master, sc_idx, hashseed=1)
         bad = [i for i in sc_idx if again.get(i) != merged["digests"][i]]
         selfcheck = {"seeds_rerun": len(sc_idx), "equal": not bad,
@@ -235,8 +249,12 @@ def cmd_check(args):
     wall = time.monotonic() - t0
     cov = eng.coverage(merged, tier, prop) if _takes_prop(eng.coverage) else \
         eng.coverage(merged, tier)
-    if hasattr(eng, "post_batch") and not args.no_selfcheck:
+    if hasattr(eng, "post_batch") and not args.no_selfcheck and not fallback:
         cov.update(eng.post_batch(tier, master, opts))
+    if fallback:
+        cov["seam_fallback"] = ("the code under test by-passes a simulated seam; "
+                                f"{fallback} run(s) were judged on real processes / a real "
+                                "scratch directory with the same oracle")
     cov["runs_per_hour"] = int(merged["runs"] / max(wall, 1e-9) * 3600)
     cov["seeds"] = {"master_seed": master, "first_run_index": merged["first"],
                     "last_run_index": merged["last"],
